@@ -185,7 +185,7 @@ def check_state(h, v, acc, tier, only=None):
         acc.transitions += 1
         w = build(h)
         w.apply_formatting(model_settings(S), 0, None, True)
-        if type(r) is not AnsiStr or model.alpha_codes(r._s) != model.alpha_codes(w):
+        if type(r) is not AnsiStr or model.alpha_codes(r) != model.alpha_codes(w):
             out.append(('apply-ansistr', {'hist': h, 'op': ['apply_str', S]}, 'AnsiStr.apply_formatting differs from AnsiString'))
         else:
             acc.validated += 1
